@@ -421,7 +421,17 @@ func (spt *Tracker) recoverWithPinInfo(ctx context.Context, pi *api.PinInfo) (*a
 	switch pi.Status {
 	case api.TrackerStatusPinError, api.TrackerStatusUnexpectedlyUnpinned:
 		logger.Infof("Restarting pin operation for %s", pi.Cid)
-		err = spt.enqueue(ctx, api.PinCid(pi.Cid), optracker.OperationPin)
+		// re-issue the pin as recorded in the shared state (mode, options)
+		var st state.ReadOnly
+		var pin *api.Pin
+		if st, err = spt.getState(ctx); err != nil {
+			break
+		}
+		if pin, err = st.Get(ctx, pi.Cid); err == state.ErrNotFound {
+			err = nil // unpinned meanwhile: nothing to re-pin
+		} else if err == nil {
+			err = spt.enqueue(ctx, pin, optracker.OperationPin)
+		}
 	case api.TrackerStatusUnpinError:
 		logger.Infof("Restarting unpin operation for %s", pi.Cid)
 		err = spt.enqueue(ctx, api.PinCid(pi.Cid), optracker.OperationUnpin)
